@@ -41,7 +41,28 @@ pub struct Cfg {
     pub replay: Option<PathBuf>,
 }
 
+/// A host process usually has a logger installed, and `log`'s macros evaluate their arguments only
+/// then: this one is enabled at every level and formats every record (into a counter), so that what the
+/// library computes for its log lines is computed here too.
+struct EvalLogger;
+static LOGGED_BYTES: std::sync::atomic::AtomicUsize = std::sync::atomic::AtomicUsize::new(0);
+impl log::Log for EvalLogger {
+    fn enabled(&self, _: &log::Metadata) -> bool {
+        true
+    }
+    fn log(&self, record: &log::Record) {
+        let line = format!("{}", record.args());
+        LOGGED_BYTES.fetch_add(line.len(), std::sync::atomic::Ordering::Relaxed);
+    }
+    fn flush(&self) {}
+}
+static EVAL_LOGGER: EvalLogger = EvalLogger;
+
 fn main() {
+    if std::env::var("ITV_NO_LOGGER").is_err() {
+        let _ = log::set_logger(&EVAL_LOGGER);
+        log::set_max_level(log::LevelFilter::Trace);
+    }
     let args: Vec<String> = std::env::args().collect();
     if args.len() < 2 {
         eprintln!("usage: itv <property> --tier quick|thorough --seed N --out DIR");
